@@ -184,7 +184,7 @@ def interleave_chunk(items, extra):
     from engine import repo
     repo.activate()
     from mitxgraders.helpers.calc import expressions as E
-    from mitxgraders import FormulaGrader, DependentSampler
+    from mitxgraders import FormulaGrader, DependentSampler, SumGrader
     from mitxgraders.helpers.calc.math_array import MathArray
     sc = X.t_scope()
     vec_vars = {k: MathArray([1.0, float(i + 2)]) for i, k in enumerate(sorted(sc[0]))}
@@ -204,6 +204,8 @@ def interleave_chunk(items, extra):
     for seed, count, start in items:
         rng = random.Random(seed)
         fg = FormulaGrader(answers='x^2+sin(y)', variables=['x', 'y'])
+        sg = SumGrader(answers={'lower': '1', 'upper': '3', 'summand': 'x^n', 'summation_variable': 'n'}, variables=['x'],
+                       input_positions={'lower': 1, 'upper': 2, 'summand': 3}, metric_suffixes=True)
         rid = start
         pool = []
         # a few array literals built from names: their value and dimension depend on the scope of each evaluation
@@ -233,6 +235,22 @@ def interleave_chunk(items, extra):
                 o = X.observe(sub, lambda *a: E.evaluator(*a, max_array_dim=1), gsc)
                 of = fresh_observe(sub, gsc)
                 out.append({'id': rid, 'toks': None, 'text': sub, 'obs': X.obs_record(o), 'fresh_class': of['c'],
+                            'same_as_fresh': X.same_observation(o, of) and all(o.get(kk) == of.get(kk) for kk in ('vars', 'funcs', 'sufs'))})
+                rid += 1
+                continue
+            if r < 0.10:
+                # a summation grader evaluates limits and summand as separate strings and merges what they use:
+                # nothing of the limits may stick to the summand's (cached) parse
+                summand = rng.choice(['x^n', 'n*x', 'x^n/2', 'n+x*0', '(x)^(n)'])
+                limits = rng.choice([('1', 'max(2,3)'), ('abs(-1)', '3'), ('1', 'floor(3.5)'), ('1', '3'), ('min(1,2)', 'abs(-3)+0k')])
+                try:
+                    sg(None, [limits[0], limits[1], summand])
+                except Exception:  # noqa
+                    pass
+                gsc = ({'x': 1.5, 'n': 2.0}, dict(E.DEFAULT_FUNCTIONS), dict(E.DEFAULT_SUFFIXES, k=1000))
+                o = X.observe(summand, lambda *a: E.evaluator(*a, max_array_dim=1), gsc)
+                of = fresh_observe(summand, gsc)
+                out.append({'id': rid, 'toks': None, 'text': summand, 'obs': X.obs_record(o), 'fresh_class': of['c'],
                             'same_as_fresh': X.same_observation(o, of) and all(o.get(kk) == of.get(kk) for kk in ('vars', 'funcs', 'sufs'))})
                 rid += 1
                 continue
